@@ -4,7 +4,7 @@
 # (F9's fix was later rearranged by the hook commit 75664ef, so its reversal is spelled out.)
 cd /verif
 git -C /repo diff --quiet || { echo "/repo has local changes, refusing"; exit 2; }
-for pair in 12b64bc:C08 534825b:C09 253e25c:C09 396b740:C04 484707b:C11 2ab4f2f:C07 2b95d9f:C13 5d8b743:C16 8b53708:C19 c17a0d4:C14 08fdd38:C05 f06ef89:C13; do
+for pair in 12b64bc:C08 534825b:C09 253e25c:C09 396b740:C04 484707b:C11 2ab4f2f:C07 2b95d9f:C13 5d8b743:C16 8b53708:C19 c17a0d4:C14 08fdd38:C05 f06ef89:C13 6017329:C14; do
   c=${pair%%:*}; p=${pair##*:}
   d=$(mktemp)
   git -C /repo show $c -- src > $d
